@@ -1,0 +1,34 @@
+//go:build verif
+
+package txlocator
+
+import (
+	"sort"
+
+	"github.com/icon-project/goloop/module"
+)
+
+// VerifWaitFlush blocks until the flush worker has handled every queued list
+// (DB write and addListAndClearOld). Verification hook; add-only.
+func VerifWaitFlush(m module.LocatorManager) {
+	m.(*manager).flushWG.Wait()
+}
+
+// VerifDump exposes the observable part of the manager state: maxTSInDB and
+// the number of cached lists per group, and the sorted keys of m.locators.
+func VerifDump(m module.LocatorManager) (maxTS [2]int64, cached [2]int, keys []string) {
+	mgr := m.(*manager)
+	mgr.lock.Lock()
+	defer mgr.lock.Unlock()
+	for g := 0; g < 2; g++ {
+		maxTS[g] = mgr.cache[g].maxTSInDB
+		for p := mgr.cache[g].head; p != nil; p = p.next {
+			cached[g]++
+		}
+	}
+	for k := range mgr.locators {
+		keys = append(keys, k)
+	}
+	sort.Strings(keys)
+	return
+}
